@@ -191,6 +191,8 @@ fn simpler_programs(p: &Program) -> Vec<Program> {
                 Op::WriteRmw(t) => Some(Op::Update(*t)),
                 Op::ReadHold => Some(Op::Get),
                 Op::SubReadHold => Some(Op::SubGet),
+                Op::BlockUntilEndSame => Some(Op::BlockUntilEnd),
+                Op::WaitThenNextNow => Some(Op::SubNextNow),
                 Op::Upgrade { keep: true } => Some(Op::Upgrade { keep: false }),
                 Op::Subscribe { reset: true } => Some(Op::Subscribe { reset: false }),
                 _ => None,
